@@ -202,7 +202,7 @@ func (t *T) exprEffects(e ast.Node, lhs bool) []effect {
 				out = append(out, effect{inline: m, inlineRecv: recvNameOf(m), src: t.src(x)})
 			case len(parts) >= 2 && t.spec.WireOps[last] != "" && isUnderlying(parts, t.recv):
 				// a call on the underlying connection object (ws: wsc.Conn.WriteMessage)
-				t.facts["call:"+last] = append(t.facts["call:"+last], t.curFn)
+				t.facts["call:"+t.spec.WireOps[last]] = append(t.facts["call:"+t.spec.WireOps[last]], t.curFn)
 				op := "write"
 				if t.spec.WireOps[last] == "wsread" {
 					op = "read" // exclusivity of the reader is a protocol invariant (Ws/Conn model), not a lock
@@ -926,7 +926,10 @@ func main() {
 			Locks:   map[string]int{"closeLock": 3, "listenLock": 4, "writeLock": 5, "stateLock": 6},
 			Vars:    map[string]int{"connState": 4, "wswrite": 5, "wsread": 6},
 			Fields:  map[string]string{"connState": "connState"},
-			WireOps: map[string]string{"WriteMessage": "wswrite", "ReadMessage": "wsread"}},
+			// every method of the underlying websocket connection that writes frames / reads frames
+			WireOps: map[string]string{"WriteMessage": "wswrite", "NextWriter": "wswrite", "WriteControl": "wswrite",
+				"WritePreparedMessage": "wswrite", "WriteJSON": "wswrite",
+				"ReadMessage": "wsread", "NextReader": "wsread", "ReadJSON": "wsread"}},
 	}
 	var body strings.Builder
 	body.WriteString("import FluentVerif.Conc.Protect\n/-! GENERATED by /verif/translator from /repo's working tree — do not edit.  Regenerated on every check run. -/\nset_option maxRecDepth 100000\nnamespace FV.Gen\nopen FV.Lk\n\n")
